@@ -66,7 +66,7 @@ func genCase(t *rapid.T) Case {
 		k := rapid.IntRange(0, 99).Draw(t, "k")
 		switch {
 		case k < 50:
-			op := FOp{K: "append", Start: rapid.SampledFrom([]uint64{1, 1, 3, 100}).Draw(t, "start")}
+			op := FOp{K: "append", Start: rapid.SampledFrom([]uint64{1, 1, 3, 100, refmodel.StartCont, refmodel.StartCont}).Draw(t, "start")}
 			m := rapid.IntRange(1, 4).Draw(t, "n")
 			big := rapid.IntRange(0, 24).Draw(t, "bigBatch") == 0 // now and then a batch that overflows the 64 KiB commit buffer
 			for j := 0; j < m; j++ {
@@ -110,7 +110,7 @@ func genCase(t *rapid.T) Case {
 func genTruncCase(t *rapid.T) Case {
 	c := Case{SegSize: rapid.SampledFrom([]int{256, 512, 4096}).Draw(t, "seg")}
 	app := func() FOp {
-		op := FOp{K: "append", Start: rapid.SampledFrom([]uint64{1, 1, 100}).Draw(t, "start")}
+		op := FOp{K: "append", Start: rapid.SampledFrom([]uint64{1, 1, 100, refmodel.StartCont}).Draw(t, "start")}
 		for j, m := 0, rapid.IntRange(1, 3).Draw(t, "n"); j < m; j++ {
 			op.Entries = append(op.Entries, kit.EntrySpec{DataLen: rapid.SampledFrom([]int{0, 5, 30, 80}).Draw(t, "dl"), Seed: uint8(rapid.IntRange(0, 255).Draw(t, "seed"))})
 		}
@@ -472,13 +472,7 @@ func (e *env) run(in *injector) *common.Failure {
 		}
 		switch op.K {
 		case "append":
-			start := e.m.Last + 1
-			if e.m.Empty() {
-				start = op.Start
-				if start == 0 {
-					start = 1
-				}
-			}
+			start := e.m.ResolveStart(op.Start)
 			var logs []*raft.Log
 			for j, es := range op.Entries {
 				logs = append(logs, es.Make(start+uint64(j), e.gen))
